@@ -4,6 +4,7 @@ package actor
 
 import (
 	"context"
+	"errors"
 	"fmt"
 	"runtime"
 	"sort"
@@ -15,6 +16,7 @@ import (
 
 	"pgregory.net/rapid"
 
+	gerrors "github.com/tochemey/goakt/v4/errors"
 	"github.com/tochemey/goakt/v4/internal/vfkit"
 	"github.com/tochemey/goakt/v4/internal/vfsched"
 	"github.com/tochemey/goakt/v4/log"
@@ -101,6 +103,28 @@ func c31Gen(t *rapid.T) c31Case {
 			total = sum
 		}
 		c.Threads = append(c.Threads, ops)
+	}
+	// "busy grain" shape (1 case in 3): the first sender keeps identity 0 inside a
+	// handler of 2 x deactivateAfter from the start, and every other sender opens
+	// with a send to the same identity that lands while that handler runs - before
+	// or after the passivation deadline that expires inside it
+	if rapid.IntRange(0, 2).Draw(t, "busy_shape") == 0 {
+		first := &c.Threads[0][0]
+		first.GapMs, first.Ident, first.HandleMs, first.SelfPoison = 0, 0, 2*c.DeactMs, false
+		if first.Kind == "poison" {
+			first.Kind = "tell"
+		}
+		for i := 1; i < len(c.Threads); i++ {
+			op := &c.Threads[i][0]
+			op.Ident = 0
+			op.GapMs = c.DeactMs * rapid.SampledFrom([]int{10, 50, 90, 110, 150, 190}).Draw(t, "busy_gap_pct") / 100
+			if rapid.IntRange(0, 9).Draw(t, "busy_poison") < 4 {
+				op.Kind, op.HandleMs, op.SelfPoison = "poison", 0, false
+			}
+		}
+		if extra := 2 * c.DeactMs; extra > total {
+			total = extra
+		}
 	}
 	c.StopAtMs = -1
 	if rapid.IntRange(0, 9).Draw(t, "has_stop") < 3 {
@@ -218,7 +242,7 @@ func (g *c31Grain) OnActivate(_ context.Context, props *GrainProps) error {
 	if prev != 0 {
 		note = fmt.Sprintf("instance reused, previous activation %d", prev)
 	}
-	w.log("act_enter", name, a, 0, note)
+	w.log("act_enter", name, a, int(prev), note)
 	if w.actDur > 0 {
 		time.Sleep(w.actDur)
 	}
@@ -286,6 +310,7 @@ func (g *c31Grain) OnDeactivate(context.Context, *GrainProps) error {
 // ---- execution -----------------------------------------------------------------
 
 type c31Send struct {
+	viaOf    bool
 	msg      int
 	ident    string
 	kind     string
@@ -388,7 +413,7 @@ func c31Exec(x *vfkit.X, c c31Case) {
 				if op.GapMs > 0 {
 					time.Sleep(time.Duration(op.GapMs) * time.Millisecond)
 				}
-				s := &c31Send{msg: (ti+1)*100 + oi, ident: names[op.Ident], kind: op.Kind}
+				s := &c31Send{msg: (ti+1)*100 + oi, ident: names[op.Ident], kind: op.Kind, viaOf: op.ViaOf}
 				id := idents[op.Ident]
 				s.start = w.log("send_start", s.ident, 0, s.msg, op.Kind)
 				if op.ViaOf {
@@ -477,6 +502,8 @@ type c31Act struct {
 	enter      int64
 	exit       int64
 	recvs      []c31Recv
+	reusedFrom int64  // previous activation number of the same Go instance (0 = fresh instance)
+	gid        string // goroutine that ran OnActivate (activation runs on the goroutine of the send that needs it)
 	deactEnter []int64
 	deactExit  []int64
 	causes     []string
@@ -512,7 +539,9 @@ func c31Judge(x *vfkit.X, c c31Case, events []c31Event, sends []*c31Send, stopEr
 		return a
 	}
 	var stopStart, stopEnd int64
+	gidOf := map[int64]string{}
 	for _, e := range events {
+		gidOf[e.Seq] = e.Gid
 		switch e.Kind {
 		case "stop_start":
 			stopStart = e.Seq
@@ -520,6 +549,8 @@ func c31Judge(x *vfkit.X, c c31Case, events []c31Event, sends []*c31Send, stopEr
 			stopEnd = e.Seq
 		case "act_enter":
 			get(e).enter = e.Seq
+			get(e).reusedFrom = int64(e.Msg)
+			get(e).gid = e.Gid
 		case "act_exit":
 			get(e).exit = e.Seq
 		case "recv_enter":
@@ -553,10 +584,47 @@ func c31Judge(x *vfkit.X, c c31Case, events []c31Event, sends []*c31Send, stopEr
 			add("receive-on-instance-never-activated", "identity %s: OnReceive ran on an instance whose OnActivate never ran", a.ident)
 			continue
 		}
+		// a new activation gets a fresh instance once the previous one was deactivated
+		// (judged only when the send that triggered the activation started after
+		// that OnDeactivate returned: the property is silent about sends that are
+		// concurrent with the deactivation)
+		if a.reusedFrom != 0 {
+			p := acts[a.reusedFrom]
+			var trigger *c31Send
+			for _, sd := range sends {
+				if sd.ident == a.ident && sd.start < a.enter && sd.end > a.enter && gidOf[sd.start] == a.gid {
+					trigger = sd
+				}
+			}
+			switch {
+			case p == nil || len(p.deactExit) == 0 || p.deactExit[0] > a.enter:
+				x.Class("obs_instance_reactivated_before_its_deactivation_finished")
+			case trigger != nil && trigger.start > p.deactExit[0]:
+				// grainof-race: the trigger itself went through GrainOf, or a
+				// GrainOf+send of this identity was in flight between the start of
+				// that deactivation and this activation (the shape of the listed
+				// finding); plain-send: nothing but plain Tell/Ask was involved
+				shape := "plain-send"
+				for _, sd := range sends {
+					if sd.ident == a.ident && sd.viaOf && sd.start < a.enter && sd.end > p.deactEnter[0] {
+						shape = "grainof-race"
+					}
+				}
+				add("instance-reused-after-deactivation:"+shape, "identity %s activation %d, triggered by message %d sent at %d, runs on the instance of activation %d whose OnDeactivate returned (nil) at %d", a.ident, id, trigger.msg, trigger.start, a.reusedFrom, p.deactExit[0])
+			default:
+				x.Class("obs_instance_reused_by_send_concurrent_with_deactivation")
+			}
+		}
 		// OnActivate completes before the first OnReceive
 		for _, r := range a.recvs {
 			if a.exit == 0 || r.enter < a.exit {
-				add("receive-before-activation-completed", "identity %s activation %d: OnReceive(msg %d) entered at %d, OnActivate returned at %d", a.ident, id, r.msg, r.enter, a.exit)
+				// reused-instance: the activation re-uses a process that was being
+				// deactivated; its old mailbox is still being drained (listed finding)
+				inst := "fresh-instance"
+				if a.reusedFrom != 0 {
+					inst = "reused-instance"
+				}
+				add("receive-before-activation-completed:"+inst, "identity %s activation %d: OnReceive(msg %d) entered at %d, OnActivate returned at %d", a.ident, id, r.msg, r.enter, a.exit)
 			}
 		}
 		// single-threaded: OnReceive intervals of one activation never overlap
@@ -602,9 +670,26 @@ func c31Judge(x *vfkit.X, c c31Case, events []c31Event, sends []*c31Send, stopEr
 		}
 		// after a clean system.Stop every activation has ended: exactly one OnDeactivate
 		if stopErr == nil && stopEnd != 0 && len(a.deactEnter) == 0 {
+			// during-stop: OnActivate had not returned yet when Stop began (the
+			// activation raced the shutdown); before-stop: a fully activated grain
+			// was left without OnDeactivate
 			when := "before-stop"
-			if stopStart != 0 && a.enter > stopStart {
+			if stopStart != 0 && (a.exit == 0 || a.exit > stopStart) {
 				when = "during-stop"
+			}
+			// after-double-deactivation: an earlier activation of the identity was
+			// deactivated twice; the slower deactivate() deletes the registry entry
+			// of its successor, which Stop then cannot find
+			for _, id2 := range order {
+				if b := acts[id2]; b.ident == a.ident && id2 < id && len(b.deactEnter) > 1 {
+					when = "after-double-deactivation"
+				}
+			}
+			// reused-instance: the activation re-used the process of an activation
+			// whose deactivate() was still running; its tail (registry delete,
+			// activated=false) then hits the re-activated process
+			if a.reusedFrom != 0 && when == "before-stop" {
+				when = "reused-instance"
 			}
 			add("activation-never-deactivated:"+when, "identity %s activation %d (OnActivate at %d, stop [%d,%d]) never got OnDeactivate although system.Stop returned nil", a.ident, id, a.enter, stopStart, stopEnd)
 		}
@@ -652,11 +737,40 @@ func c31Judge(x *vfkit.X, c c31Case, events []c31Event, sends []*c31Send, stopEr
 		if latest == nil || len(latest.deactExit) == 0 || latest.deactExit[0] > s.start {
 			continue
 		}
-		x.Class("send_after_deactivation")
+		// a deactivation (explicit or passivation) that begins while this send is in
+		// flight makes the send concurrent with a deactivation again: the property
+		// only speaks about sends made after one
+		concurrent := false
+		for _, a := range byIdent[s.ident] {
+			for _, de := range a.deactEnter {
+				if de > s.start && de < s.end {
+					concurrent = true
+				}
+			}
+		}
 		h, handled := handledBy[s.msg]
+		if concurrent {
+			x.Class("send_after_deactivation_races_next_deactivation")
+			if s.err != nil || !handled {
+				x.Class("obs_send_dropped_by_concurrent_deactivation")
+				x.Note("dropped_send", fmt.Sprintf("%s msg %d: err=%v handled=%v", s.ident, s.msg, s.err, handled))
+			}
+			continue
+		}
+		x.Class("send_after_deactivation")
 		switch {
 		case s.err != nil || !handled:
-			add("send-after-deactivation-not-received", "identity %s: message %d sent at %d, after activation %d finished OnDeactivate at %d, was not received (handled=%v err=%v)", s.ident, s.msg, s.start, latest.id, latest.deactExit[0], handled, s.err)
+			kind := "silently"
+			switch {
+			case s.err == nil:
+			case errors.Is(s.err, gerrors.ErrDead):
+				kind = "dead"
+			case errors.Is(s.err, gerrors.ErrRequestTimeout):
+				kind = "timeout"
+			default:
+				kind = "error"
+			}
+			add("send-after-deactivation-not-received:"+kind, "identity %s: message %d sent at %d, after activation %d finished OnDeactivate at %d, was not received (handled=%v err=%v)", s.ident, s.msg, s.start, latest.id, latest.deactExit[0], handled, s.err)
 		case h <= latest.id:
 			add("send-after-deactivation-handled-by-old-activation:"+latest.cause(), "identity %s: message %d sent at %d, after activation %d finished OnDeactivate at %d, was handled by activation %d", s.ident, s.msg, s.start, latest.id, latest.deactExit[0], h)
 		default:
@@ -675,5 +789,7 @@ func TestVF_C31_lifecycle(t *testing.T) {
 		Exec: c31Exec,
 		// real scheduler: a stored case is replayed several times
 		ReplayReps: 20,
+		// a panic on a framework goroutine kills the process: persist the case first
+		CrashSafe: true,
 	})
 }
